@@ -253,6 +253,12 @@ fn decode_frame(
             .into()
         }
         Kind::GoAway => {
+            if head.stream_id() != 0 {
+                // GOAWAY applies to the connection, not a specific stream.
+                proto_err!(conn: "invalid stream ID for GO_AWAY; stream={:?}", head.stream_id());
+                return Err(Error::library_go_away(Reason::PROTOCOL_ERROR));
+            }
+
             let res = frame::GoAway::load(&bytes[frame::HEADER_LEN..]);
             res.map_err(|e| {
                 proto_err!(conn: "failed to load GO_AWAY frame; err={:?}", e);
